@@ -148,9 +148,9 @@ example : setNumTransitionExemptions 8 [⟨2, []⟩, ⟨3, [4]⟩] 3 = .ok 3 := 
 
 /-- the number of composition columns is enough for every transition quotient … -/
 theorem quotient_degree_lt_columns (ds : List Degree) (n e : ℕ) (hn : 0 < n) :
-    ∀ d ∈ ds, d.evalDegree n - (n - e) < n * numCompositionColumns ds n e := by
+    ∀ d ∈ ds, d.evalDegree n - (n - e) < n * numCompColumns ds n e := by
   intro d hd
-  unfold numCompositionColumns
+  unfold numCompColumns
   have hmax := (foldl_max_ge (fun d => d.evalDegree n) ds 0).2 d hd
   simp only at hmax ⊢
   generalize ds.foldl (fun h d => if d.evalDegree n > h then d.evalDegree n else h) 0 = H at *
@@ -163,8 +163,8 @@ theorem quotient_degree_lt_columns (ds : List Degree) (n e : ℕ) (hn : 0 < n) :
     `segment(coefficients, n, k)` is a full chunk of `n` coefficients -/
 theorem columns_le_blowup (ds : List Degree) (n e B : ℕ) (hn : 0 < n) (hB : 1 ≤ B)
     (h : ∀ d ∈ ds, d.evalDegree n - (n - e) < n * B) :
-    numCompositionColumns ds n e ≤ B := by
-  unfold numCompositionColumns
+    numCompColumns ds n e ≤ B := by
+  unfold numCompColumns
   simp only
   have hH : ds.foldl (fun h d => if d.evalDegree n > h then d.evalDegree n else h) 0 - (n - e) < n * B := by
     rcases foldl_max_mem (fun d => d.evalDegree n) ds 0 with h0 | ⟨d, hd, hm⟩
@@ -176,7 +176,7 @@ theorem columns_le_blowup (ds : List Degree) (n e B : ℕ) (hn : 0 < n) (hB : 1 
   have : (H - (n - e)) / n < B := (Nat.div_lt_iff_lt_mul hn).mpr (by rw [Nat.mul_comm]; exact hH)
   exact max_le (by omega) hB
 
-example : numCompositionColumns [⟨2, []⟩, ⟨3, [4]⟩] 8 1 = 3 ∧ ceBlowup [⟨2, []⟩, ⟨3, [4]⟩] = 4 := by decide
+example : numCompColumns [⟨2, []⟩, ⟨3, [4]⟩] 8 1 = 3 ∧ ceBlowup [⟨2, []⟩, ⟨3, [4]⟩] = 4 := by decide
 
 -- ============================================================================================
 -- (a) the three boundary-constraint representations of the prover
@@ -372,7 +372,7 @@ example : (⟨0, 1, 4, [5, 6]⟩ : Assertion (ZMod 17)).validateTraceLength 8 = 
 def CommittedEqDefinition (root : ℕ → Option F) (beq : F → F → Bool) (air : Air F) (P : Prep F) (D : Domain F)
     (threshold : ℕ) (mainPolys auxPolys : ℕ → List F) (rands : ℕ → F) (tco bco : List F) : Prop :=
   ∀ ctr cols, compositionTrace (fieldOps F root) beq air P D threshold mainPolys auxPolys rands tco bco = some ctr →
-    compositionPoly (fieldOps F root) D ctr (numCompositionColumns (air.mainDegs ++ air.auxDegs) air.n air.e) = some cols →
+    compositionPoly (fieldOps F root) D ctr (numCompColumns (air.mainDegs ++ air.auxDegs) air.n air.e) = some cols →
     ∀ x, x ^ air.n ≠ 1 →
       some (recombine (fieldOps F root) air.n x (evaluateAt (fieldOps F root) cols x))
         = defAt (fieldOps F root) air P mainPolys auxPolys rands tco bco x
